@@ -12,7 +12,7 @@ LEVEL_TEXT = ("Floating-point forward-backward over a C++ DP is outside this fam
               "are checked on run_genotype outputs. The Gray-code enumerator both tables rely on is proved (contracts/graycodes_cpp.py).")
 LEVEL_NOTE = "Tolerance 1e-9 absolute on probabilities. Trusted: the summation oracle (runtime/genohmm.py)."
 TECHNIQUE = "bounded runtime contract against a plain-summation HMM oracle (floating point is outside deductive reach); GrayCodes leaf proved by vcgen/z3"
-D_MODULES = ["contracts.graycodes_cpp", "contracts.genotype_py"]
+D_MODULES = ["contracts.graycodes_cpp"]
 EXPLANATION = LEVEL_TEXT
 TRUSTED_BASE = ["plain-summation oracle runtime/genohmm.py", "IEEE double arithmetic with tolerance 1e-9"]
 ASSUMPTIONS = ["floats compared with absolute tolerance 1e-9", "the HMM definition is the one fixed in DESIGN.md (C08)"]
